@@ -52,6 +52,19 @@ class Flow:
             return st.value, st
         if isinstance(st, ast.AnnAssign) and st.value is not None and isinstance(st.target, ast.Name):
             return st.value, st
+        # a, b = x, y   /   a, b = f(...)
+        if isinstance(st, ast.Assign) and len(st.targets) == 1 and isinstance(st.targets[0], (ast.Tuple, ast.List)):
+            elts = st.targets[0].elts
+            idx = [i for i, e in enumerate(elts) if isinstance(e, ast.Name) and e.id == name]
+            if len(idx) == 1 and not any(isinstance(e, ast.Starred) for e in elts):
+                i = idx[0]
+                if isinstance(st.value, (ast.Tuple, ast.List)) and len(st.value.elts) == len(elts):
+                    return st.value.elts[i], st
+                if isinstance(st.value, ast.Call):
+                    sub = ast.Subscript(value=st.value, slice=ast.Constant(i), ctx=ast.Load())
+                    ast.copy_location(sub, st.value)
+                    ast.fix_missing_locations(sub)
+                    return sub, st
         return None
 
     def resolve(self, expr, at=None, depth=6, stop=()):
@@ -234,3 +247,49 @@ def emptiness_test_kind(test, about=None):
     if isinstance(t, ast.Subscript) and isinstance(t.value, ast.Attribute) and t.value.attr == "shape":
         return "size"
     return None
+
+
+def iteration_constructs(root):
+    """Unified view of `for x in it: yield e` / `yield from (e for x in it)` / `[e for x in it]` /
+    `for x in it: out.append(e)`:  dicts with target, iter, ifs, elts (produced expressions), node."""
+    out = []
+    for n in walk_no_nested(root):
+        if isinstance(n, (ast.ListComp, ast.SetComp, ast.GeneratorExp)) and len(n.generators) == 1:
+            g = n.generators[0]
+            out.append({"kind": "comp", "target": g.target, "iter": g.iter, "ifs": list(g.ifs), "elts": [n.elt], "node": n})
+        elif isinstance(n, ast.For):
+            elts = []
+            ifs = []
+            body = n.body
+            # a single guarding if around the production counts as a filter
+            if len(body) == 1 and isinstance(body[0], ast.If) and not body[0].orelse:
+                ifs = [body[0].test]
+                body = body[0].body
+            for st in body:
+                if isinstance(st, ast.Expr) and isinstance(st.value, ast.Yield) and st.value.value is not None:
+                    elts.append(st.value.value)
+                elif isinstance(st, ast.Expr) and isinstance(st.value, ast.Call) and isinstance(st.value.func, ast.Attribute) \
+                        and st.value.func.attr in ("append", "add") and len(st.value.args) == 1:
+                    elts.append(st.value.args[0])
+                elif isinstance(st, ast.AugAssign) and isinstance(st.op, ast.Add) and isinstance(st.value, ast.List) and len(st.value.elts) == 1:
+                    elts.append(st.value.elts[0])
+            if elts:
+                out.append({"kind": "for", "target": n.target, "iter": n.iter, "ifs": ifs, "elts": elts, "node": n})
+    return out
+
+
+def guard_chain(node, stop=None):
+    """[(test expr, polarity)] of the enclosing if/elif/else branches of a statement (innermost last)"""
+    out = []
+    child = node
+    n = parent(node)
+    while n is not None and n is not stop and not isinstance(n, (ast.FunctionDef, ast.AsyncFunctionDef)):
+        if isinstance(n, ast.If):
+            if any(child is s for s in n.body):
+                out.append((n.test, True))
+            elif any(child is s for s in n.orelse):
+                out.append((n.test, False))
+        child = n
+        n = parent(n)
+    out.reverse()
+    return out
